@@ -341,8 +341,16 @@ def baseline():
     return descriptor()(1, 2, True, 3, "s", b"y", (MD5, None, None), "10.0.0.1", _dt.datetime(2021, 1, 1, tzinfo=_dt.timezone.utc), ["x"], [5], 1.5, "/p", inner(9), ["1.1.1.1"], "10.0.0.0/8", _generated=_dt.datetime(2021, 1, 1, tzinfo=_dt.timezone.utc))
 
 
+def _packed(v):
+    try:
+        return repr(v._pack()) if hasattr(v, "_pack") else repr(v)
+    except Exception as e:  # noqa: BLE001
+        return f"<_pack raised {type(e).__name__}>"
+
+
 def snapshot(rec):
-    return [(k, id(getattr(rec, k)), repr(getattr(rec, k))) for k in rec.__slots__]
+    """identity, printable form AND packed form of every slot (a half-applied change may leave the printable form intact)"""
+    return [(k, id(getattr(rec, k)), repr(getattr(rec, k)), _packed(getattr(rec, k))) for k in rec.__slots__]
 
 
 def all_valid(rec):
